@@ -102,6 +102,9 @@ def cases(tier, seed):
                                state=st, seed=seed, pcid=pcid, rival=True)
                     yield dict(code=0x0001, dsize=70, maxlen=46, comp='seeded', mode=mode,
                                state=st, seed=seed + pcid, pcid=pcid, offset=True)
+                yield dict(code=0x0001, dsize=70, maxlen=46, comp='seeded', mode=mode,
+                           state=st, seed=seed + 2 * pcid, pcid=pcid, consumer=True,
+                           offset=(pcid == 3))
                 if st == 'Sta6':
                     # the same while the local user keeps handing over outgoing messages
                     yield dict(code=0x0001, dsize=70, maxlen=46, comp='seeded', mode=mode,
@@ -122,7 +125,8 @@ def cases(tier, seed):
         yield dict(code=code, dsize=dsize, maxlen=maxlen, comp='seeded', mode=mode,
                    state=rnd.choice(['Sta6', 'Sta6', 'Sta7']), seed=seed * 100003 + i, fault=fault,
                    pcid=rnd.choice([1, 3, 5]), duplex=rnd.random() < 0.3,
-                   rival=rnd.random() < 0.3, offset=rnd.random() < 0.3)
+                   rival=rnd.random() < 0.3, offset=rnd.random() < 0.3,
+                   consumer=rnd.random() < 0.3)
 
 
 def run_case(case):
@@ -235,11 +239,11 @@ def _one(case, comp, fields, cmd, data, pdvs, pcid, rnd):
                      'detail': '%s\ncase %r composition %r\nloop tb %s' % (
                          detail, case, comp, rig.task.tb if rig else None)})
     pre = None
-    if case.get('rival') and file_mode and not case.get('fault'):
+    if ((case.get('rival') and file_mode) or case.get('consumer')) and not case.get('fault'):
         # installed before the provider thread exists: a thread is traced from its start only
         from .. import preempt
         pre = preempt.Preempter(None, prob=0.5, park_prob=0.3, park_max=0.05,
-                                funcs={'write_meta', 'get_file'},
+                                funcs={'write_meta', 'get_file', 'process', 'dt_2', 'ar_6'},
                                 files=('applicationentity.py',))
         pre.install()
     START = {'n': 0}
@@ -302,6 +306,25 @@ def _one(case, comp, fields, cmd, data, pdvs, pcid, rnd):
                     fp2.close()
                     rig.sim.sleep(0.01)
             rig.sim.spawn(rival, name='rival', role='user')
+        taken = []
+        early = []
+        if case.get('consumer') and not case.get('fault'):
+            # the local user waits in receive() on its own thread and looks at the message the
+            # moment it is handed over: it must be complete THEN, not a little later
+            def consumer():
+                q_ = rig.provider.to_service_user
+                while True:
+                    item = q_.get(True, None)
+                    if isinstance(item, tuple):
+                        msg_ = item[0]
+                        ds_ = msg_.data_set
+                        if data is not None and ds_ is None:
+                            early.append('no data set yet')
+                        elif hasattr(ds_, 'tell') and ds_.tell() != START['n']:
+                            early.append('file at %d, not at its start %d' % (ds_.tell(),
+                                                                              START['n']))
+                    taken.append(item)
+            cons_task = rig.sim.spawn(consumer, name='consumer', role='user')
         ref = rc.Reassembler()
         i = 0
         delivered_at = None
@@ -338,6 +361,16 @@ def _one(case, comp, fields, cmd, data, pdvs, pcid, rnd):
                     rig.advance(0.06)
             rig.settle()
             inds = rig.take_indications()
+            if case.get('consumer') and not case.get('fault'):
+                inds = inds + taken[:]
+                del taken[:]
+                if cons_task.exc is not None:
+                    return {'harness_error': 'consumer died: %s' % cons_task.tb, 'violations': [],
+                            'stats': {}, 'digest': '', 'steps': 0, 'vsecs': 0}
+                if early:
+                    v('completion-signalled-before-message-complete',
+                      'at the moment the user got the message: %s' % early[0])
+                    break
             if rig.loop_dead():
                 v('loop-died exc=%s' % (type(rig.task.exc).__name__ if rig.task.exc else '-'), '')
                 return _ret(rig, viol, {})
